@@ -74,7 +74,9 @@ fn main() {
         }
     }
     std::fs::create_dir_all(&out).unwrap();
-    std::panic::set_hook(Box::new(|_| {})); // panics of the library are outcomes, not noise
+    if std::env::var("XSG_PANIC_TRACE").is_err() {
+        std::panic::set_hook(Box::new(|_| {})); // panics of the library are outcomes, not noise
+    }
     let mut ctx = Ctx { prop: prop.clone(), thorough, seed, out: out.clone(), rng: rng::Rng::new(seed), meta: vec![], args: rest, impl_failures: vec![], shards: vec![], verif: std::env::var("XSG_VERIF").unwrap_or("/verif".to_string()) };
     match prop.as_str() {
         "C12" => cli::run(&mut ctx),
